@@ -44,6 +44,11 @@ class Viol(Exception):
         self.oracle, self.signature, self.detail = oracle, signature, detail
 
 
+class Diverged(Exception):
+    """a call left the reference model (raised where the model accepts, or the reverse) in a check whose
+    property does not speak about that outcome: the history ends there, without a verdict"""
+
+
 MUTATING = ('append', 'iterappend', 'iterappend_fail', 'setitem', 'truncate', 'recreate', 'delete') + M.META_OPS
 
 
@@ -73,7 +78,7 @@ def failing_iterable(objs, how, raise_at=None, exc=Boom):
 class ArrayHistory(Engine):
     """oracles: subset of {'model','fresh','prefix','reject','decoder','readme','meta','ro','leak'}"""
     prop = 'C03'
-    oracles = ('model', 'fresh', 'prefix', 'reject')
+    oracles = ('model', 'fresh', 'prefix', 'reject', 'outcome')
     weights = dict(append=20, iterappend=12, setitem=12, truncate=14, mode=5, reopen=10,
                    append_bad=6, truncate_bad=6, meta=0, recreate=0, iterappend_fail=4, iterbreak=3)
     minops, maxops = 3, 25
@@ -164,7 +169,7 @@ class ArrayHistory(Engine):
         if k == 'reopen':
             return {'op': 'reopen', 'mode': rng.choice(self.reopen_modes)}
         if k == 'meta':
-            return M.gen_meta_op(rng)
+            return M.gen_meta_op(rng, with_bytes='meta' in self.oracles)
         if k == 'recreate':
             c = self.gen_create(rng)
             c['op'] = 'recreate'
@@ -327,6 +332,17 @@ class ArrayHistory(Engine):
                             'op': op['op'], 'detail': v.detail}
                     emit({'step': idx, 'op': op['op'], 'violation': v.oracle + ':' + v.signature})
                     break
+                except Diverged as dv:
+                    st.probe('history_ended_outcome_not_this_propertys_subject')
+                    emit({'step': idx, 'op': op['op'], 'ended': str(dv)})
+                    try:
+                        st.close_ctxs()
+                        st.disk_oracles(use_model=False)      # what the call left on disk is still this check's subject
+                    except Viol as v:
+                        viol = {'oracle': v.oracle, 'signature': v.signature, 'op_index': idx,
+                                'op': op['op'], 'detail': v.detail}
+                        emit({'step': idx, 'op': op['op'], 'violation': v.oracle + ':' + v.signature})
+                    break
         finally:
             st.close()
         return {'violation': viol, 'stats': st.stats()}
@@ -397,6 +413,13 @@ class _State:
 
     def has(self, o):
         return o in self.oracles
+
+    def unexpected(self, oracle, signature, detail=''):
+        """the real call's outcome (raised / did not raise) differs from the reference model's: a verdict only in
+        the checks whose property states that outcome ('outcome' oracle: C03, C11), otherwise the end of the history"""
+        if self.has('outcome') and (self.has('reject') or not oracle.startswith('reject.')):
+            return Viol(oracle, signature, detail)
+        return Diverged(f'{oracle}:{signature}')
 
     # -- ops
     def step(self, op):
@@ -511,7 +534,7 @@ class _State:
         exc = self.call(lambda: self.h.append(obj))
         if exp is None:
             if exc is None:
-                raise Viol('reject.append', 'no_exception', f'bad={op.get("bad")}')
+                raise self.unexpected('reject.append', 'no_exception', f'bad={op.get("bad")}')
             if pre is not None:
                 d = snap_diff(pre, self.state_snapshot())
                 if d:
@@ -519,7 +542,7 @@ class _State:
             self.log('append', 'rejected')
         else:
             if exc is not None:
-                raise Viol('model.append', f'raises:{type(exc).__name__}', str(exc)[:300])
+                raise self.unexpected('model.append', f'raises:{type(exc).__name__}', str(exc)[:300])
             if m.shape[0] == 0:
                 self.probe('append_to_empty')
             if exp.shape[0] == 0:
@@ -548,7 +571,7 @@ class _State:
         prebytes = self.filebytes() if self.has('prefix') else None
         exc = self.call(lambda: self.h.iterappend(it))
         if exc is not None:
-            raise Viol('model.iterappend', f'raises:{type(exc).__name__}', f'nchunks={len(objs)} {str(exc)[:200]}')
+            raise self.unexpected('model.iterappend', f'raises:{type(exc).__name__}', f'nchunks={len(objs)} {str(exc)[:200]}')
         if not objs:
             self.probe('iterappend_empty_iterable')
         if m.shape[0] == 0 and objs:
@@ -588,7 +611,7 @@ class _State:
         exc = self.call(lambda: self.h.iterappend(failing_iterable(objs, 'generator', raise_at,
                                                                   Interrupt if op['how'] == 'raise_base' else Boom)))
         if exc is None:
-            raise Viol('model.iterappend_fail', 'no_exception', f'how={op["how"]} pos={pos}')
+            raise self.unexpected('model.iterappend_fail', 'no_exception', f'how={op["how"]} pos={pos}')
         self.model = np.concatenate([m] + exps[:pos]).astype(m.dtype, copy=False) if pos else m
         self.probe('iterappend_failed_after_%d_chunks' % min(pos, 2))
         if pos:
@@ -639,7 +662,7 @@ class _State:
         exc = self.call(lambda: self.h.__setitem__(idx, val))
         if mexc is not None:
             if exc is None:
-                raise Viol('reject.setitem', 'no_exception', f'model raised {type(mexc).__name__}')
+                raise self.unexpected('reject.setitem', 'no_exception', f'model raised {type(mexc).__name__}')
             if pre is not None:
                 d = snap_diff(pre, self.state_snapshot())
                 if d:
@@ -647,7 +670,7 @@ class _State:
             self.log('setitem', 'rejected')
         else:
             if exc is not None:
-                raise Viol('model.setitem', f'raises:{type(exc).__name__}', str(exc)[:300])
+                raise self.unexpected('model.setitem', f'raises:{type(exc).__name__}', str(exc)[:300])
             self.model = newm
             self.mutations_ok += 1
             self.log('setitem', 'ok')
@@ -682,7 +705,7 @@ class _State:
         exc = self.call(lambda: self.darr.truncate_array(target, index))
         if not ok:
             if exc is None:
-                raise Viol('reject.truncate', 'no_exception', f'index={index!r} len={m.shape[0]}')
+                raise self.unexpected('reject.truncate', 'no_exception', f'index={index!r} len={m.shape[0]}')
             if pre is not None:
                 d = snap_diff(pre, self.state_snapshot())
                 if d:
@@ -690,7 +713,7 @@ class _State:
             self.log('truncate', 'rejected', {'it': it})
         else:
             if exc is not None:
-                raise Viol('model.truncate', f'raises:{type(exc).__name__}', f'index={index} len={m.shape[0]} {str(exc)[:200]}')
+                raise self.unexpected('model.truncate', f'raises:{type(exc).__name__}', f'index={index} len={m.shape[0]} {str(exc)[:200]}')
             self.model = m[:index].copy()
             if self.model.shape[0] == 0:
                 self.probe('truncate_to_zero')
@@ -728,7 +751,7 @@ class _State:
         if problem and self.has('meta'):
             raise Viol(*problem)
         if out in ('rejected', 'keyerror', 'default'):
-            d = snap_diff(pre, snapshot(self.path))
+            d = M.state_diff(pre, snapshot(self.path))
             if d and self.has('meta'):
                 raise Viol('meta.reject', 'state_changed', f'{op["op"]}:{out}:{d}')
         if out == 'ok':
@@ -762,14 +785,14 @@ class _State:
             for ch in g:
                 exp = m[taken * op['chunklen']:(taken + 1) * op['chunklen']]
                 if not D.arr_equal(ch, exp)[0]:
-                    raise Viol('model.iterchunks', 'chunk_differs', f'chunk {taken}')
+                    raise self.unexpected('model.iterchunks', 'chunk_differs', f'chunk {taken}')
                 taken += 1
                 if taken > op['take']:
                     break
         except Viol:
             raise
         except Exception as e:
-            raise Viol('model.iterchunks', f'raises:{type(e).__name__}', str(e)[:200])
+            raise self.unexpected('model.iterchunks', f'raises:{type(e).__name__}', str(e)[:200])
         if op['how'] == 'close':
             g.close()
         del g
@@ -802,7 +825,7 @@ class _State:
             dt = None       # casts are C15's subject; here only the documentation of the copy
         exc = self.call(lambda: self.h.copy(p2, dtype=dt, chunklen=op.get('chunklen')))
         if exc is not None:
-            raise Viol('model.copy', f'raises:{type(exc).__name__}', str(exc)[:200])
+            raise self.unexpected('model.copy', f'raises:{type(exc).__name__}', str(exc)[:200])
         if self.has('readme'):
             r = check_array_readme(p2, self.scratch, has_meta=bool(self.meta), who='array_copy')
             if r:
@@ -821,9 +844,9 @@ class _State:
     def do_delete(self, op):
         exc = self.call(lambda: self.darr.delete_array(self.h))
         if exc is not None:
-            raise Viol('model.delete', f'raises:{type(exc).__name__}', str(exc)[:300])
+            raise self.unexpected('model.delete', f'raises:{type(exc).__name__}', str(exc)[:300])
         if os.path.lexists(self.path):
-            raise Viol('model.delete', 'path_remains', str(sorted(os.listdir(self.path)))[:200])
+            raise self.unexpected('model.delete', 'path_remains', str(sorted(os.listdir(self.path)))[:200])
         self.mutations_ok += 1
         self.probe('deleted')
         self.h = None
@@ -966,6 +989,34 @@ class _State:
         if not ok:
             raise Viol(f'{who}.contents', why.split(' ')[0], why)
 
+    def disk_oracles(self, use_model=True, fresh=None, in_ctx=False):
+        """the oracles that read the directory only (decoder, README); use_model=False after the history left the model"""
+        if self.has('decoder'):
+            try:
+                a, d = decode_array_dir(self.path)
+            except DecodeError as e:
+                raise Viol('decoder', str(e).split(':')[0], str(e))
+            # C02 compares the decoder with what the Darr API reports (below); agreement of both with the reference
+            # model is C01's and C03's subject and only judged where the model is one of the check's oracles
+            ok, why = D.arr_equal(a, self.model)
+            if not ok and use_model and self.has('model'):
+                raise Viol('decoder.contents', why.split(' ')[0], why)
+            if not ok and use_model:
+                self.probe('decoder_and_api_agree_but_model_differs')
+            if fresh is None:
+                try:
+                    fresh = self.darr.Array(self.path)
+                except Exception as e:
+                    raise Viol('decoder.api_open', f'raises:{type(e).__name__}', str(e)[:300])
+            for hh, who in ((fresh, 'fresh'),) + (() if (in_ctx or not use_model) else ((self.h, 'live'),)):
+                ok, why = D.arr_equal(a, hh[:])
+                if not ok or D.dtstr(hh.dtype) != D.dtstr(a.dtype) or tuple(hh.shape) != a.shape:
+                    raise Viol('decoder.vs_api', who + ':' + (why.split(' ')[0] or 'attrs'), why)
+        if self.has('readme'):
+            r = check_array_readme(self.path, self.scratch, has_meta=bool(self.meta) if use_model else None)
+            if r:
+                raise Viol(*r)
+
     def after_step(self, op):
         if self.h is None:
             return
@@ -979,23 +1030,7 @@ class _State:
             except Exception as e:
                 raise Viol('fresh.open', f'raises:{type(e).__name__}', str(e)[:300])
             self.observe(fresh, 'fresh')
-        if self.has('decoder'):
-            try:
-                a, d = decode_array_dir(self.path)
-            except DecodeError as e:
-                raise Viol('decoder', str(e).split(':')[0], str(e))
-            ok, why = D.arr_equal(a, self.model)
-            if not ok:
-                raise Viol('decoder.contents', why.split(' ')[0], why)
-            if fresh is None:
-                try:
-                    fresh = self.darr.Array(self.path)
-                except Exception as e:
-                    raise Viol('decoder.api_open', f'raises:{type(e).__name__}', str(e)[:300])
-            for hh, who in ((fresh, 'fresh'),) + (() if in_ctx else ((self.h, 'live'),)):
-                ok, why = D.arr_equal(a, hh[:])
-                if not ok or D.dtstr(hh.dtype) != D.dtstr(a.dtype) or tuple(hh.shape) != a.shape:
-                    raise Viol('decoder.vs_api', who + ':' + (why.split(' ')[0] or 'attrs'), why)
+        self.disk_oracles(fresh=fresh, in_ctx=in_ctx)
         if self.has('meta'):
             r = M.check_meta(self.h.metadata, self.meta, os.path.join(self.path, 'metadata.json'), 'live')
             if r:
@@ -1005,10 +1040,6 @@ class _State:
             except Exception as e:
                 raise Viol('fresh.open', f'raises:{type(e).__name__}', str(e)[:300])
             r = M.check_meta(fm, self.meta, os.path.join(self.path, 'metadata.json'), 'fresh')
-            if r:
-                raise Viol(*r)
-        if self.has('readme'):
-            r = check_array_readme(self.path, self.scratch, has_meta=bool(self.meta))
             if r:
                 raise Viol(*r)
         if self.has('leak'):
